@@ -44,11 +44,32 @@ class Result:
         return {s: sorted(set(v), key=lambda x: (x[0] or 0, x[1])) for s, v in out.items()}
 
 
-def analyse(f, tracked, kill_strength, edge_refresh=None, edge_unkill=None, subscript_is_use=False, infeasible_edges=()):
+def analyse(f, tracked, kill_strength, edge_refresh=None, edge_unkill=None, subscript_is_use=False, infeasible_edges=(), derive=False, fresh_call=None, own_call=None, init_state=None):
+    """derive=True: an assignment `v = <expr mentioning tracked w>` gives v the union of the states of the
+    tracked variables the expression mentions (a pointer derived from a borrowed value dies with it), and the
+    assignments of an element take effect after its kills (`v = f()` where f() itself is a kill leaves v fresh).
+    fresh_call(call node) -> True when the call's result is a fresh value whatever its arguments are."""
     """tracked: {var id: name}.  kill_strength(call node, state) -> None | label.
     edge_refresh(cond, truth) -> iterable of var ids made current on that edge.
     edge_unkill(cond, truth, block) -> predicate on sites to drop on that edge (or None)."""
     res = Result()
+
+    def _derive_assign(st, vid, r):
+        """derive mode: st holds only the variables that currently hold a borrowed value"""
+        if r.get("k") == "Call":
+            if fresh_call is not None and fresh_call(r):
+                st[vid] = frozenset()         # a new borrow: valid until the next kill
+            else:
+                st.pop(vid, None)             # result of some other call: not borrowed
+            return
+        acc = None
+        for x in walk(r):
+            if x.get("k") == "Ref" and x.get("id") in st:
+                acc = st[x.get("id")] if acc is None else (acc | st[x.get("id")])
+        if acc is None:
+            st.pop(vid, None)
+        else:
+            st[vid] = acc
 
     def transfer(record):
         def t(blk, st):
@@ -74,28 +95,49 @@ def analyse(f, tracked, kill_strength, edge_refresh=None, edge_unkill=None, subs
                             b = strip(n["b"])
                             if b.get("k") == "Ref" and b.get("id") in tracked:
                                 record.append((blk, n, b, "%s[..]" % b.get("n"), st.get(b.get("id"), frozenset())))
-                for n in nodes:
+                ordered = nodes if not derive else ([x for x in nodes if x.get("k") == "Call"] + [x for x in reversed(nodes) if x.get("k") != "Call"])
+                for n in ordered:
                     k = n.get("k")
                     if k == "Call":
+                        if derive and own_call is not None and own_call(n):
+                            # the holder copies the lender's value into storage of its own: what was validly borrowed
+                            # up to here is kept alive by that copy
+                            st = {v: x for v, x in st.items() if x}
                         s = kill_strength(n, st)
                         if s:
                             site = (blk.id, i, n.get("l"), n.get("fn") or "(*)")
                             res.kills[site] = s
                             st = dict(st)
-                            for v in tracked:
+                            for v in (tracked if not derive else list(st)):
                                 st[v] = st.get(v, frozenset()) | frozenset([site])
                     elif k == "Asg" and n.get("op") == "=":
                         l = strip(n["L"])
                         if l.get("k") == "Ref" and l.get("id") in tracked:
                             r = strip(n["R"])
                             st = dict(st)
-                            st[l.get("id")] = st.get(r.get("id"), frozenset()) if (r.get("k") == "Ref" and r.get("id") in tracked) else frozenset()
+                            if derive:
+                                _derive_assign(st, l.get("id"), r)
+                            else:
+                                st[l.get("id")] = st.get(r.get("id"), frozenset()) if (r.get("k") == "Ref" and r.get("id") in tracked) else frozenset()
+                    elif derive and k == "Un" and n.get("op") == "++":
+                        # `v->ref++`: the holder takes its own reference, the value is no longer borrowed
+                        t = strip(n["e"])
+                        if t.get("k") == "Mem" and t.get("f") == "ref":
+                            b0 = strip(t["b"])
+                            while b0.get("k") == "Mem":
+                                b0 = strip(b0["b"])
+                            if b0.get("k") == "Ref" and b0.get("id") in st:
+                                st = dict(st)
+                                st.pop(b0.get("id"), None)
                     elif k == "Decl":
                         for v in n.get("vars", []):
                             if v.get("id") in tracked and "init" in v:
                                 r = strip(v["init"])
                                 st = dict(st)
-                                st[v.get("id")] = st.get(r.get("id"), frozenset()) if (r.get("k") == "Ref" and r.get("id") in tracked) else frozenset()
+                                if derive:
+                                    _derive_assign(st, v.get("id"), r)
+                                else:
+                                    st[v.get("id")] = st.get(r.get("id"), frozenset()) if (r.get("k") == "Ref" and r.get("id") in tracked) else frozenset()
             return st
         return t
 
@@ -132,7 +174,7 @@ def analyse(f, tracked, kill_strength, edge_refresh=None, edge_unkill=None, subs
             out[k] = out.get(k, frozenset()) | v
         return out
 
-    res.ins = solve(f, {}, transfer(None), edge, join)
+    res.ins = solve(f, dict(init_state or {}), transfer(None), edge, join)
     tr = transfer(res.uses)
     for bid in sorted(f.reachable(), reverse=True):
         if bid in res.ins:
